@@ -21,8 +21,11 @@ Chk(cond, tid, v) == IF cond THEN TRUE ELSE Say(tid, v)
 
 ToSet(s) == {s[i] : i \in 1..Len(s)}
 ObjOrder == Obs[1].objs
-\* OrConstraint.apply passes its alternatives through list(set(...)): the member order of the result is not fixed
-SameUpToOrder(a, b) == a = b \/ (a.k = "union" /\ b.k = "union" /\ Len(a.ms) = Len(b.ms) /\ ToSet(a.ms) = ToSet(b.ms))
+\* OrConstraint.apply passes its alternatives through list(set(...)): the member order of the result is not fixed; and
+\* whether two occurrences of one unhashable literal (hashed by id) are merged depends on object identity, which the
+\* terms do not carry: results of and / or conditions are compared as sets of union members
+MemberSet(t) == IF t.k = "union" THEN ToSet(t.ms) ELSE {t}
+SameUpToOrder(a, b) == a = b \/ MemberSet(a) = MemberSet(b)
 
 \* where the model makes no prediction (N1 / N2 are still judged on the real result):
 \*  - the visitor rejected a call inside the condition (len(x) for x: int, issubclass(x, C) for x: int): it then derives
@@ -42,7 +45,7 @@ JudgePol(o, pol, R) ==
        IN Chk(n1 = "ok", o.tid, IF n1 = "viol" THEN "viol:N1-" \o PolName(pol) ELSE n1)
     /\ Chk(RefNoWiden(o.v, o.c, R), o.tid, "viol:N2-" \o PolName(pol))
     /\ Chk(IF NoPrediction(o) THEN TRUE
-           ELSE IF CondHasKind(o.c, {"or", "and"}) THEN SameUpToOrder(R, ImplNarrow(o.v, o.c, pol))
+           ELSE IF CondHasKind(o.c, {"or", "and", "m_or"}) THEN SameUpToOrder(R, ImplNarrow(o.v, o.c, pol))
            ELSE R = ImplNarrow(o.v, o.c, pol),
            o.tid, "drift:narrow-" \o PolName(pol))
 
